@@ -148,16 +148,17 @@ def linspace (ops : NumOps α) (a b : α) (n : Nat) : Linspace α :=
 
 /-- the element count of `range(a, b, step)` as repaired (`fix: range ...`): zero unless `b`
 lies strictly beyond `a` in the direction of `step`; otherwise `steps = ceil(span / step)`,
-plus one when `steps * step` still lies strictly before `span` (truncating integer division
-with the identity `ceil`), minus one when the last element `a + (steps - 1) * step` does not lie
-strictly before `b` (second `fix:` — a float quotient that rounds up past an integer; never taken
-in exact arithmetic, `rangeLen_rat` / `rangeLen_int`), cast to `usize` -/
+plus one when the next element `a + steps * step` still lies strictly before `b` (truncating
+integer division with the identity `ceil`; a float quotient that rounds down), minus one when the
+last element `a + (steps - 1) * step` does not lie strictly before `b` (a float quotient that rounds
+up past an integer; never taken in exact arithmetic, `rangeLen_rat` / `rangeLen_int`), cast to
+`usize` — the count as settled on the elements themselves by the `fix:` commits for F4, F45, F46 -/
 def rangeLen (ops : NumOps α) (a b step : α) : Nat :=
   if (0 < step ∧ a < b) ∨ (step < 0 ∧ b < a) then
     let span := b - a
     let steps := ops.ceil (ops.div span step)
-    let covered := steps * step
-    let steps := if (0 < step ∧ covered < span) ∨ (step < 0 ∧ span < covered) then steps + 1 else steps
+    let next := a + steps * step
+    let steps := if (0 < step ∧ next < b) ∨ (step < 0 ∧ b < next) then steps + 1 else steps
     let last := a + (steps - 1) * step
     let steps := if (0 < step ∧ ¬ last < b) ∨ (step < 0 ∧ ¬ b < last) then steps - 1 else steps
     ops.toUsize steps
